@@ -220,3 +220,11 @@ Definition mod_do (a b : num) : res num :=
       | NInt j | NChar j => imod i j
       end
   end.
+
+(* functions.go NumericFunction: (op a b c ...) folds NumericDo from the left over the arguments *)
+Definition numeric_fold (op : arop) (args : list num) : res num :=
+  match args with
+  | [] => Err                               (* WrongNargs *)
+  | a :: rest =>
+      fold_left (fun acc x => match acc with Ok v => numeric_do op v x | Err => Err end) rest (Ok a)
+  end.
